@@ -197,6 +197,16 @@ ExchCtx(c) ==
     /\ UNCHANGED <<att, isNew, cur, ctxDone, chistVars, lzVars, health, uclosed, tVars, spurious>>
     /\ FlipAll(c, {cur[c]})
 
+\* Contract freedom (Policy "any" only): a caller whose context has ended may give its reservation back
+\* (WithdrawReserved) instead of starting the exchange.
+Withdraw(c) ==
+    /\ Policy = "any" /\ pc[c] = "ready" /\ ctxDone[c]
+    /\ inuse' = [inuse EXCEPT ![cur[c]] = @ - 1]
+    /\ pc' = [pc EXCEPT ![c] = "decide"] /\ res' = [res EXCEPT ![c] = "ctx"]
+    /\ H([a |-> "Withdraw", x |-> hid[cur[c]]])
+    /\ UNCHANGED <<att, isNew, cur, ctxDone, chistVars, lzVars, health, uclosed, tVars, spurious>>
+    /\ NoFlip
+
 CodeRetry(c) == ~isNew[c] /\ att[c] <= MaxRetry /\ ~ctxDone[c]
 MayRetry(c) == CASE Policy = "code" -> CodeRetry(c)
                  [] Policy = "noretry" -> FALSE
